@@ -150,10 +150,6 @@ Proof. intros H. rewrite <- (firstn_skipn n l). apply in_or_app; auto. Qed.
 Lemma in_skipn {A} (x : A) n l : In x (skipn n l) -> In x l.
 Proof. intros H. rewrite <- (firstn_skipn n l). apply in_or_app; auto. Qed.
 
-Lemma slice_sub k n files e : In e (removal_slice k n files) -> In e files.
-Proof. destruct k; simpl; [apply in_skipn|apply in_firstn]. Qed.
-
-
 (* the removal loop *)
 Lemma remove_loop_sub : forall vs d e, In e (remove_loop d vs) -> In e d.
 Proof.
@@ -359,110 +355,112 @@ Qed.
 
 (* in a directory with unique names an entry of the tail of the listing has no namesake in the head *)
 
-(* ------------------------------------------------------------------ what a rollover does, any slice *)
-Lemma victims_own k p n d e : In e (removal_slice k n (listing p d)) -> In e d /\ own_log p e = true.
-Proof. intros I. apply slice_sub in I. apply listing_in in I. auto. Qed.
+(* ------------------------------------------------------------------ what a rollover does *)
+Lemma name_ltb_irrefl a : name_ltb a a = false.
+Proof. unfold name_ltb. rewrite name_leb_refl. reflexivity. Qed.
+
+Lemma name_ltb_leb a b : name_ltb a b = true -> name_leb a b = true.
+Proof. unfold name_ltb. intros H. apply negb_true_iff in H. apply name_leb_total; auto. Qed.
+
+Lemma earlier_in fn files e : In e (earlier fn files) <-> In e files /\ name_ltb (e_name e) fn = true.
+Proof. unfold earlier. apply filter_In. Qed.
+
+Lemma filter_sorted (f : entry -> bool) l : StronglySorted R l -> StronglySorted R (filter f l).
+Proof.
+  induction l as [|a r]; simpl; intros H; [constructor|]. inversion H as [|? ? Hr Ha]; subst.
+  destruct (f a); auto. constructor; auto.
+  rewrite Forall_forall in *. intros x I. apply filter_In in I as [I _]. auto.
+Qed.
+
+Lemma earlier_sorted fn p d : StronglySorted R (earlier fn (listing p d)).
+Proof. apply filter_sorted. apply listing_sorted. Qed.
+
+(* every victim is an own log file of the directory dated before the file being written *)
+Lemma victims_spec p n fn d e :
+  In e (victims n (earlier fn (listing p d))) -> In e d /\ own_log p e = true /\ name_ltb (e_name e) fn = true.
+Proof.
+  unfold victims. intros I. apply in_firstn in I. apply earlier_in in I as [I L].
+  apply listing_in in I as [I O]. auto.
+Qed.
 
 (* nothing but `current` and the file of the day is created; `current` is never removed *)
-Lemma rollover_frame k prefix n d date :
-  (forall e, In e (do_rollover k prefix n d date) -> In e (open_file d (log_name prefix date))) /\
-  has_name cur_name (do_rollover k prefix n d date) = true.
+Lemma rollover_frame prefix n d date :
+  (forall e, In e (do_rollover prefix n d date) -> In e (open_file d (log_name prefix date))) /\
+  has_name cur_name (do_rollover prefix n d date) = true.
 Proof.
   unfold do_rollover. destruct n as [|n].
   - split; auto. apply open_has_current.
   - split.
     + intros e. apply remove_loop_sub.
-    + rewrite remove_loop_names, open_has_current. simpl.
-      destruct (has_name cur_name (removal_slice k (S n) _)) eqn:E; auto.
-      apply has_name_in in E as (e & I & N). apply victims_own in I as [_ O].
+    + rewrite remove_loop_names, open_has_current. simpl andb.
+      destruct (has_name cur_name (victims (S n) _)) eqn:E; auto.
+      apply has_name_in in E as (e & I & N). apply victims_spec in I as (_ & O & _).
       apply own_not_current in O. contradiction.
 Qed.
 
-(* entries that are not regular files named <root>-*.log (foreign files, sub-directories, links) always stay *)
-Lemma rollover_keeps_foreign k prefix n d date e :
-  NoDup (map e_name d) ->
-  In e (open_file d (log_name prefix date)) -> own_log prefix e = false ->
-  In e (do_rollover k prefix n d date).
+(* a name disappears iff it is the name of a victim *)
+Lemma rollover_names prefix n d date nm :
+  let fn := log_name prefix date in
+  let d1 := open_file d fn in
+  has_name nm (do_rollover prefix (S n) d date) =
+  has_name nm d1 && negb (has_name nm (victims (S n) (earlier fn (listing prefix d1)))).
+Proof. intros fn d1. unfold do_rollover. apply remove_loop_names. Qed.
+
+(* an entry of the directory stays unless it is (the namesake of) a victim *)
+Lemma rollover_keeps_entry prefix n d date e :
+  let fn := log_name prefix date in
+  let d1 := open_file d fn in
+  In e d1 -> has_name (e_name e) (victims (S n) (earlier fn (listing prefix d1))) = false ->
+  In e (do_rollover prefix (S n) d date).
+Proof. intros fn d1 I H. unfold do_rollover. apply remove_loop_keeps_entry; auto. Qed.
+
+(* in a directory with unique names: an entry which is no victim has no namesake among the victims *)
+Lemma unique_entry (d : dir) x e : NoDup (names d) -> In x d -> In e d -> e_name x = e_name e -> x = e.
 Proof.
-  intros ND I F. unfold do_rollover. destruct n as [|n]; auto.
-  apply remove_loop_keeps_entry; auto.
-  destruct (has_name (e_name e) (removal_slice k (S n) _)) eqn:H; auto.
-  apply has_name_in in H as (x & Ix & N). apply slice_sub in Ix.
-  assert (has_name (e_name e) (listing prefix (open_file d (log_name prefix date))) = true) as H2.
-  { apply has_name_in. exists x. auto. }
-  rewrite foreign_not_listed in H2; auto. apply (open_nodup d _ ND).
+  induction d as [|a r]; intros ND Ix Ie N; [destruct Ix|]. simpl in ND. inversion ND as [|? ? Na Nr]; subst.
+  destruct Ix as [Ix|Ix], Ie as [Ie|Ie]; subst; auto.
+  - exfalso. apply Na. rewrite N. unfold names. apply in_map; auto.
+  - exfalso. apply Na. rewrite <- N. unfold names. apply in_map; auto.
 Qed.
 
-Lemma rollover_zero k prefix d date :
-  do_rollover k prefix 0 d date = open_file d (log_name prefix date) /\
-  (forall e, In e d -> e_name e <> cur_name -> In e (do_rollover k prefix 0 d date)) /\
-  has_name (log_name prefix date) (do_rollover k prefix 0 d date) = true.
+(* the file being written is never removed *)
+Lemma rollover_keeps_written prefix n d date :
+  has_name (log_name prefix date) (do_rollover prefix n d date) = true.
+Proof.
+  destruct n as [|n]; [apply open_has_file|].
+  rewrite rollover_names, open_has_file. simpl andb.
+  destruct (has_name (log_name prefix date) (victims (S n) _)) eqn:E; auto.
+  apply has_name_in in E as (e & I & N). apply victims_spec in I as (_ & _ & L).
+  rewrite N, name_ltb_irrefl in L. discriminate.
+Qed.
+
+(* entries that are not own log files dated before the file being written always stay: foreign files, sub-directories,
+   links, the file being written, own log files dated later *)
+Lemma rollover_keeps_others prefix n d date e :
+  NoDup (names d) ->
+  In e (open_file d (log_name prefix date)) ->
+  own_log prefix e = false \/ name_ltb (e_name e) (log_name prefix date) = false ->
+  In e (do_rollover prefix n d date).
+Proof.
+  intros ND I F. destruct n as [|n]; auto.
+  apply rollover_keeps_entry; auto.
+  destruct (has_name (e_name e) (victims (S n) _)) eqn:H; auto.
+  apply has_name_in in H as (x & Ix & N). apply victims_spec in Ix as (Ix & O & L).
+  assert (x = e) by (apply (unique_entry (open_file d (log_name prefix date))); auto; apply open_nodup; auto). subst x.
+  destruct F as [F|F]; congruence.
+Qed.
+
+Lemma rollover_zero prefix d date :
+  do_rollover prefix 0 d date = open_file d (log_name prefix date) /\
+  (forall e, In e d -> e_name e <> cur_name -> In e (do_rollover prefix 0 d date)) /\
+  has_name (log_name prefix date) (do_rollover prefix 0 d date) = true.
 Proof.
   split; [reflexivity|]. split.
   - intros e I N. simpl. apply open_keeps; auto.
   - simpl. apply open_has_file.
 Qed.
 
-(* ------------------------------------------------------------------ the last file of the listing *)
-Lemma last_skipn (l : list entry) d0 : forall k, k < length l -> last (skipn k l) d0 = last l d0.
-Proof.
-  induction l as [|a r]; simpl; intros k H; [lia|]. destruct k as [|k]; auto.
-  simpl. rewrite IHr by lia. destruct r; simpl in *; [lia|auto].
-Qed.
-
-Lemma skipn_nonempty (l : list entry) k : k < length l -> skipn k l <> [].
-Proof.
-  revert k; induction l as [|a r]; simpl; intros k H; [lia|]. destruct k; simpl; [discriminate|].
-  apply IHr; lia.
-Qed.
-
-Section Written.
-  Variable prefix date : name.
-  Variable d : dir.
-  Let fn := log_name prefix date.
-  Let d1 := open_file d fn.
-  Let files := listing prefix d1.
-
-  (* an entry carrying the name of the file of the day is a regular file (otherwise open() fails) *)
-  Hypothesis day_file : forall e, In e d -> e_name e = fn -> e_file e = true.
-  (* no log file of the handler is dated later than the file being written *)
-  Hypothesis newest : forall e, In e d1 -> own_log prefix e = true -> name_leb (e_name e) fn = true.
-
-  Lemma written_listed : exists e, In e files /\ e_name e = fn.
-  Proof.
-    pose proof (open_has_file d fn) as H. apply has_name_in in H as (e & I & N).
-    exists e. split; auto. apply listing_in. split; auto.
-    assert (e_file e = true) as F.
-    { apply open_sub in I as [I|[I|I]].
-      - apply day_file; auto.
-      - subst e. exfalso. simpl in N. symmetry in N. revert N. apply log_name_not_current.
-      - subst e. reflexivity. }
-    destruct e as [en ef]. simpl in *. subst. apply log_name_own.
-  Qed.
-
-  Lemma files_nonempty : 0 < length files.
-  Proof. destruct written_listed as (e & I & _). destruct files; [destruct I|simpl; lia]. Qed.
-
-  Lemma last_is_written : e_name (last files cur_entry) = fn.
-  Proof.
-    destruct written_listed as (e & I & N).
-    assert (files <> []) as NE by (intros Z; rewrite Z in I; destruct I).
-    pose proof (sorted_last_max files (listing_sorted prefix d1) e cur_entry I) as L1.
-    pose proof (last_in files cur_entry NE) as IL. apply listing_in in IL as [IL1 IL2].
-    pose proof (newest _ IL1 IL2) as L2.
-    unfold R, entry_leb in L1. rewrite N in L1. apply name_leb_antisym; auto.
-  Qed.
-
-  Lemma written_in_tail n : has_name fn (skipn (length files - S n) files) = true.
-  Proof.
-    apply has_name_in. exists (last files cur_entry). split; [|apply last_is_written].
-    pose proof files_nonempty as P.
-    rewrite <- (last_skipn files cur_entry (length files - S n)) by lia.
-    apply last_in. apply skipn_nonempty. lia.
-  Qed.
-End Written.
-
-(* in a directory with unique names an entry of the tail of the listing has no namesake in the head *)
+(* in a list with unique names an entry of the tail has no namesake in the head *)
 Lemma kept_not_removed (files : list entry) k e :
   NoDup (names files) -> In e (skipn k files) -> has_name (e_name e) (firstn k files) = false.
 Proof.
@@ -471,46 +469,27 @@ Proof.
   eapply nodup_app_disjoint; eauto. unfold names. apply in_map; auto.
 Qed.
 
-(* the slice of the source, files[:-max_days]: exactly the names of the head of the sorted listing of the handler's own
-   log files disappear, min(max_days, number of such files) of them stay, every removed one sorts below every kept one *)
-Lemma head_retention prefix n d date :
-  let d1 := open_file d (log_name prefix date) in
-  let files := listing prefix d1 in
-  let removed := firstn (length files - S n) files in
-  let kept := skipn (length files - S n) files in
-  (forall nm, has_name nm (do_rollover SliceHead prefix (S n) d date) =
-              has_name nm d1 && negb (has_name nm removed)) /\
-  length kept = Nat.min (S n) (length files) /\
+(* retention N = S n: the n newest earlier own log files are kept, the others -- all older -- are the victims *)
+Lemma retention_earlier prefix n d date :
+  let fn := log_name prefix date in
+  let d1 := open_file d fn in
+  let earl := earlier fn (listing prefix d1) in
+  let removed := firstn (length earl - n) earl in
+  let kept := skipn (length earl - n) earl in
+  victims (S n) earl = removed /\
+  length kept = Nat.min n (length earl) /\
   (forall r k, In r removed -> In k kept -> name_leb (e_name r) (e_name k) = true) /\
-  (forall r, In r removed -> In r d1 /\ own_log prefix r = true).
+  (NoDup (names d) -> forall k, In k kept -> In k (do_rollover prefix (S n) d date)).
 Proof.
-  intros d1 files removed kept. split; [|split; [|split]].
-  - intros nm. unfold do_rollover. simpl removal_slice. apply remove_loop_names.
+  intros fn d1 earl removed kept.
+  assert (victims (S n) earl = removed) as V.
+  { unfold victims, removed. simpl. rewrite Nat.sub_0_r. reflexivity. }
+  split; auto. split; [|split].
   - unfold kept. rewrite skipn_length. lia.
-  - intros r k Ir Ik. apply (sorted_split files (length files - S n) r k (listing_sorted prefix d1) Ir Ik).
-  - intros r Ir. apply in_firstn in Ir. apply listing_in in Ir. auto.
-Qed.
-
-(* ... every entry of the tail stays, in particular the file being written when no own log file is dated later *)
-Lemma head_keeps prefix n d date :
-  let d1 := open_file d (log_name prefix date) in
-  let files := listing prefix d1 in
-  NoDup (names d) ->
-  (forall e, In e (skipn (length files - S n) files) -> In e (do_rollover SliceHead prefix (S n) d date)) /\
-  ((forall e, In e d -> e_name e = log_name prefix date -> e_file e = true) ->
-   (forall e, In e d1 -> own_log prefix e = true -> name_leb (e_name e) (log_name prefix date) = true) ->
-   has_name (log_name prefix date) (do_rollover SliceHead prefix (S n) d date) = true /\
-   e_name (last files cur_entry) = log_name prefix date).
-Proof.
-  intros d1 files U.
-  assert (NoDup (names files)) as NF by (apply listing_nodup; apply open_nodup; auto).
-  assert (forall e, In e (skipn (length files - S n) files) ->
-             In e (do_rollover SliceHead prefix (S n) d date)) as K.
-  { intros e I. unfold do_rollover. simpl removal_slice. apply remove_loop_keeps_entry.
-    - apply in_skipn in I. apply listing_in in I as [I _]. auto.
-    - apply (kept_not_removed files _ e NF I). }
-  split; auto.
-  intros DF NW. split; [|apply last_is_written; auto].
-  pose proof (written_in_tail prefix date d DF NW n) as T. apply has_name_in in T as (e & I & N).
-  apply has_name_in. exists e. split; auto.
+  - intros r k Ir Ik.
+    apply (sorted_split earl (length earl - n) r k (earlier_sorted fn prefix d1) Ir Ik).
+  - intros ND k Ik. apply rollover_keeps_entry.
+    + apply in_skipn in Ik. apply earlier_in in Ik as [Ik _]. apply listing_in in Ik as [Ik _]. auto.
+    + fold fn d1 earl. rewrite V. apply (kept_not_removed earl _ k); auto.
+      unfold earl, earlier. apply filter_nodup. apply listing_nodup. apply open_nodup. auto.
 Qed.
